@@ -282,8 +282,7 @@ def _c15_neutralised_passes(fa, v, case, recs, one_case, sh, seed):
         js2 = derecurse(js2)
     if {"recursive", "reused_record"} & tr:
         js2 = rename_all(js2)
-    if "fieldless" in tr:
-        js2 = pad_fieldless(js2)
+    # (records without fields are no longer padded: that finding is repaired, a6f8977)
     opts = {"skip_nested_union_defaults": True}
     if "recursive" not in tr:
         return _c15_retest(fa, one_case, sh, js2, recs, seed, opts) is None
@@ -553,7 +552,6 @@ def _c12_json_met_twice(fa, v, case, data, one_case, sh, seed):
     else:
         fresh = False
     js2, names = rename_all(js, True)
-    js2 = pad_fieldless(js2)
     try:
         node, _env = RS.build(js2)
     except Exception:
